@@ -9,6 +9,7 @@ CONSTANTS
   MaxOps = 60
   EmitMode = "none"
   HistViews = FALSE
+  OrderedBegin = FALSE
 VIEW View0
 INVARIANTS TypeOK RingConsistent InOrder NoDirty PrefixRule CompleteKF AtomicKF CleanupSafe SeekConsistentKF SeekKFExact
 PROPERTIES Stable
